@@ -349,6 +349,16 @@ def corruptions(data):
         d = copy.deepcopy(data)
         get_path(d, path)['name'] = foreign
         out.append((f'foreign_name={foreign}@' + '/'.join(map(str, path)), d))
+        # custom-name syntax `module:name`: an empty module part, and a module that cannot be loaded because it registers a
+        # component under a name that is already taken (its import fails with the registry's ValueError); building the
+        # built-in component of that name instead would silently ignore what the configuration asks for
+        if ':' not in spec['name']:
+            d = copy.deepcopy(data)
+            get_path(d, path)['name'] = ':' + spec['name']
+            out.append(('empty_module_name@' + '/'.join(map(str, path)), d))
+            d = copy.deepcopy(data)
+            get_path(d, path)['name'] = 'gvmon.colliding_components:' + spec['name']
+            out.append(('colliding_module@' + '/'.join(map(str, path)), d))
         required = required_params(kind, spec['name'])
         for rp in required:
             if rp in spec:
